@@ -117,12 +117,20 @@ func config(tier string) *opspace.Config {
 	}
 	if tier == "thorough" {
 		cfg.Drivers = hx.Drivers
-		cfg.MaxDepth = 4
 	}
 	return cfg
 }
 
-func run(c *core.Ctx) { config(c.Tier).Run(c) }
+func run(c *core.Ctx) {
+	config(c.Tier).Run(c)
+	if c.Thorough() {
+		// depth 4 with one faulty operation per history (memory driver)
+		d := config("quick")
+		d.Drivers, d.Inits, d.DepthFor = []string{"memory"}, []string{"empty"}, nil
+		d.MaxDepth, d.MaxFaulty = 4, 1
+		d.Run(c)
+	}
+}
 
 type replayData struct {
 	opspace.Replay
